@@ -25,7 +25,7 @@ THEOREMS = [(_P, 'NSV.C05.' + t) for t in (
     'mxml_note_times', 'mxml_total_time', 'mxml_tempo_marks', 'mxml_harmony_time', 'mxml_time_fails_today',
     'mxml_attrs', 'mxml_rests_dropped', 'mxml_channel_program', 'mxml_score_part_declared',
     'mxml_time_signature_declared', 'mxml_time_signature_complete', 'mxml_time_signatures_reported',
-    'mxml_key_signatures_reported', 'mxml_harmony', 'mxml_harmony_alter_table', 'mxml_harmony_kind_table')] + [
+    'mxml_key_signatures_reported', 'mxml_key_signatures_once', 'mxml_harmony', 'mxml_harmony_alter_table', 'mxml_harmony_kind_table')] + [
     (_F, 'NSV.C05.' + t) for t in (
     # where a part starts (float state follows the context in force; F-C05-4 as in the exact theorems)
     'mxml_float_part_start', 'mxml_float_first_part', 'mxml_float_later_part_partial',
@@ -539,6 +539,19 @@ def gen_valid(rng, force=None):
             if here:
                 marks[m] = here
     score_parts, parts, hist = [], [], set()
+    # key plan of the SCORE: every non-transposing part that follows it declares the same key at the same measures (what
+    # exported scores do) — the initial key, a change, possibly the way back to the first key; the other parts keep a
+    # key plan of their own
+    shared = None
+    if force.get('shared_keys') or rng.random() < 0.4:
+        k0 = (rng.randint(-7, 7), rng.choice(['major', 'minor', None]))
+        changes = {}
+        if nmeas > 1 and rng.random() < 0.75:
+            m1 = rng.randrange(1, nmeas)
+            changes[m1] = (rng.randint(-7, 7), rng.choice(['major', 'minor', None]))
+            if m1 + 1 < nmeas and rng.random() < 0.5:
+                changes[rng.randrange(m1 + 1, nmeas)] = k0 if rng.random() < 0.6 else (rng.randint(-7, 7), rng.choice(['major', 'minor', None]))
+        shared = (k0, changes)
     hist.add('tempo:%s/%d' % (mode, min(3, sum(len(v) for v in marks.values()))))
     if any(b for v in marks.values() for b, _ in v):
         hist.add('tempo:mid-measure')
@@ -564,6 +577,11 @@ def gen_valid(rng, force=None):
         kmode = rng.choice(['major', 'minor', None])
         hist.add('mode:%s' % kmode)
         key_change = rng.randrange(1, nmeas) if (nmeas > 1 and t == 0 and rng.random() < 0.2) else None
+        follows = shared is not None and t == 0 and rng.random() < 0.85
+        if follows:
+            (fifths, kmode), key_change = shared[0], None
+            if p and shared[1]:
+                hist.add('key-change:same-in-several-parts')
         carries_marks = mode == 'all' or (mode == 'p0' and p == 0)
         measures = []
         for m in range(nmeas):
@@ -574,9 +592,12 @@ def gen_valid(rng, force=None):
                     div = rng.choice(ok_div)
                     hist.add('divisions-change')
                 attrs.append(['d', div])
-            if m == 0 or m == key_change:
+            if m == 0 or m == key_change or (follows and m in shared[1]):
                 if m == key_change:
                     fifths, kmode = rng.randint(-7, 7), rng.choice(['major', 'minor', None])
+                    hist.add('key-change')
+                elif m and follows:
+                    fifths, kmode = shared[1][m]
                     hist.add('key-change')
                 attrs.append(['k', fifths, kmode])
             if m == 0 or meters[m] != meters[m - 1]:
@@ -913,9 +934,24 @@ def oracle(sc, ns, err):
         bad.append(('tempos %s, declared %s' % ([(float(a), b) for a, b in got_t], [(float(a), b) for a, b in want_t]), None))
 
     # ---- sets of timed records: every declared one reported at its time, nothing else reported
-    def judge_set(what, got, decl):
-        """got: [(seconds, value)], decl: [(part, q, value)]"""
+    def judge_set(what, got, decl, written=None):
+        """got: [(seconds, value)], decl: [(part, q, value)]; written[i] = the declaration decl[i] as the part writes it"""
         used = [False] * len(got)
+        # ... each ONCE: a declaration that several parts make identically at one position is one signature of the score.
+        # Records equal in time (the same double) and value are judged against the number of DIFFERENT declarations
+        # (position, written form) that can account for them.
+        written = written or [val for (_, _, val) in decl]
+        seen = {}
+        for (s, v) in got:
+            seen[(s, v)] = seen.get((s, v), 0) + 1
+        for (s, v), c in seen.items():
+            if c > 1:
+                forms = {(q, repr(w)) for (pi, q, val), w in zip(decl, written) if val == v and (
+                    close(s, max(tm.sec(q), F(0))) or (in_class[pi] and close(s, max(leak[pi].sec(q), F(0)))))}
+                if c > max(1, len(forms)):
+                    bad.append(('%s %s reported %d times at %s s (declared there in %d different form(s) by the parts): '
+                                'a signature several parts declare alike is one signature of the score'
+                                % (what, v, c, float(s), len(forms)), None))
         for (pi, q, val) in decl:
             want = max(tm.sec(q), F(0))
             hit = [i for i, (s, v) in enumerate(got) if v == val and close(s, want)]
@@ -935,9 +971,10 @@ def oracle(sc, ns, err):
     def tonic(f, mode, t):
         return ((7 * f + t + (9 if mode == 'minor' else 0)) % 12, 1 if mode == 'minor' else 0)
     decl_k = [(pi, q, tonic(f, mode, t)) for pi, w in enumerate(walks) for (q, f, mode, t) in w['keys']]
+    written_k = [(f, mode == 'minor', t) for pi, w in enumerate(walks) for (q, f, mode, t) in w['keys']]
     got_k = [(F(k.time), (k.key, k.mode)) for k in ns.key_signatures]
     if decl_k:
-        judge_set('key signature (tonic, mode)', got_k, decl_k)
+        judge_set('key signature (tonic, mode)', got_k, decl_k, written_k)
     elif got_k != [(F(0), (0, 0))]:
         bad.append(('no key declared but %s reported' % got_k, None))
     judge_set('time signature', [(F(t.time), (t.numerator, t.denominator)) for t in ns.time_signatures],
@@ -1422,7 +1459,8 @@ def run(chk):
         'abstract score to MusicXML text / a compressed .mxl for the real parser and to wire tokens for the model',
         'Python fractions.Fraction normal form = core Lean Rat normal form'])
     chk.rule = ('abstract scores of the quantifier (1-3 parts, 1-6 complete measures, divisions {1..16,24,96,480,960} with '
-                'whole-beat constraint, meters n/4 n/8 n/2 with changes, fifths -7..7 x mode major/minor/absent, tempo marks at '
+                'whole-beat constraint, meters n/4 n/8 n/2 with changes, fifths -7..7 x mode major/minor/absent with key changes per part or '
+                'shared by all non-transposing parts (incl. the way back to the first key), tempo marks at '
                 'measure starts and inside measures in the first part / all parts, transposing parts, two voices joined by '
                 'backup, forward, chords, rests, dots, tuplets, harmony from the kind table with degrees/bass/offset) rendered to '
                 '.xml and .mxl, always onto a pool of three paths per extension that are rewritten in place; off-class and '
